@@ -162,6 +162,9 @@ def make_project(rng, root, truth, prestates, method=False, rich=False, kinds=KI
             lines += ["class C_holder(object):", '    """holder zqdoc"""', "    zq_sibling_attr = 1", "",
                       "    def zq_sibling_before(self, q=1):", "        return q", ""]
         lines += after
+        if (rich or state == "absent") and rng.random() < 0.3:
+            lines = ['"""Module zqdoc for {}'.format(kind), "", "second zqdoc line", '"""', ""] + lines
+            feats["{}_module_docstring".format(kind)] = True
         text = "\n".join(lines)
         if rng.random() < 0.85 and not text.endswith("\n"):
             text += "\n"
